@@ -5,7 +5,7 @@ typedef struct S_struct_gdstk__Polygon Poly;
 #define NV 2
 #define RR 3
 int main(void) {
-  Poly poly; memset(&poly, 0, sizeof poly);
+  Poly poly = {0};
   OI vx[NV], vy[NV]; NUM* pts = malloc(sizeof(NUM) * 2 * NV);
   for (int i = 0; i < NV; i++) { vx[i] = (OI)nd_range(-RR, RR); vy[i] = (OI)nd_range(-RR, RR); pts[2 * i] = NUM_OF_INT(vx[i]); pts[2 * i + 1] = NUM_OF_INT(vy[i]); }
   poly.f1.f0 = NV; poly.f1.f1 = NV; poly.f1.f2 = (void*)pts;
